@@ -8,7 +8,6 @@ namespace WowSrp
 
 /-- C06: world proof = H(U | 0u32 | client seed | server seed | K) -/
 theorem C06_source_layout : Gen.layoutWorldProof =
-    [["username.as_ref()", "0_u32.to_le_bytes()", "client_seed.to_le_bytes()", "server_seed.to_le_bytes()",
-      "session_key.as_le_bytes()"]] := by decide
+    [["username.as_ref()", "0_u32.to_le_bytes()", "client_seed.to_le_bytes()", "server_seed.to_le_bytes()", "session_key.as_le_bytes()"], ["ctors:Sha1::new", "methods:chain_update,chain_update,chain_update,chain_update,chain_update,finalize", "control:", "rebound:", "tail:Proof::from_le_bytes(server_proof)"]] := by decide +kernel
 
 end WowSrp
